@@ -28,7 +28,7 @@ from antlr4 import *
 from .aggregator import DocumentationAggregator
 from cminx import Settings
 from .documentation_types import DocumentationType, ModuleDocumentation
-from .parser import ParserErrorListener
+from .parser import ParserErrorListener, LexerErrorListener
 from .parser.CMakeLexer import CMakeLexer
 from .parser.CMakeParser import CMakeParser
 from .rstwriter import RSTWriter, Directive
@@ -93,6 +93,7 @@ class Documenter(object):
         """
 
         self.parser.addErrorListener(ParserErrorListener())
+        self.lexer.addErrorListener(LexerErrorListener())
 
         # Hard part is done, we now have a fully usable parse tree, now we just
         # need to walk it
